@@ -212,3 +212,108 @@ STORE_TEMPLATES = [
     "with a as {T}:\n    pass\n", "with a as b, c as {T}:\n    pass\n", "r = [x for {T} in y]\n", "r = {{k: v for k, {T} in y}}\n", "async def f():\n    async for {T} in y:\n        pass\n",
     "*{T}, x = z\n", "x = {T} = 3\n", "with (a as {T}):\n    pass\n",
 ]
+
+
+# =================================================================================================
+# G5b: word model for subprocess command lines (C06)
+
+import keyword as _keyword
+import re as _re
+
+WORD_ALPHABET = "abcxyzQ019_-./=:,+%^~*<>|&;@é"
+CURATED_WORDS = ["--opt=val", "1e5x", "a.b/c", "2>&1", "..", ">>=", "**", "...", "1.2.3", "0x", "-la", "a=b", "~/x", "*.py", "a,b", "x:y", "1_000", "1__0", "a->b", ":=", "&&", "||", "|", ">", ">>", "<", "&", ";", "a;b",
+                 "@", "a@b", "+x", "%d", "^a", "0b2", "1.", ".5", "1j", "1e", "e1", "a.b.c", "//", "a//b", "==", "!=".replace("!", "="), "<=", "-", "--", "=", "ñ", "é.txt", "x1y2", "__a__", "match", "case", "type", "_", "a|b", "2>", "1>&2", ">&", "a&b", "@@", "@a", "a@"]
+QUOTED_PIECES = ['"a b"', "'c'", '"x,y"', "'(z'", 'r"\\d"', '"]"', "b'q'", "u'u'", "''", '"$X"', "'#'", '"""t q"""', "R'''a'''", "'a\\'b'", '"`"', "'?'", "'!'"]
+_IDENT = _re.compile(r"[^\W\d]\w*")
+_KW = set(_keyword.kwlist)
+
+
+def word_ok(text: str) -> bool:
+    if "@(" in text or "@$" in text:
+        return False
+    return not any(m.group(0) in _KW for m in _IDENT.finditer(text))
+
+
+def plain_piece(rnd) -> str:
+    if rnd.random() < 0.5:
+        return rnd.choice(CURATED_WORDS)
+    return "".join(rnd.choice(WORD_ALPHABET) for _ in range(rnd.randint(1, 6)))
+
+
+class Cmd:
+    """a generated command line: text plus the expected argument structure"""
+
+    def __init__(self, form, words, text):
+        self.form, self.words, self.text = form, words, text  # words: list of list of pieces
+
+
+def gen_word(rnd, d):
+    """list of pieces; piece = (kind, text, payload)"""
+    pieces = []
+    n = rnd.choice([1, 1, 1, 2, 2, 3])
+    for _ in range(n):
+        r = rnd.random()
+        prev = pieces[-1] if pieces else None
+        if r < 0.55:
+            t = plain_piece(rnd)
+            if prev and prev[0] == "env" and _re.match(r"\w", t):
+                t = "/" + t
+            if prev and prev[0] == "plain":
+                continue
+            pieces.append(("plain", t, None))
+        elif r < 0.7:
+            q = rnd.choice(QUOTED_PIECES)
+            if prev and prev[0] == "plain" and prev[1][-1:].lower() in "rbufp":
+                pieces[-1] = ("plain", prev[1] + "-", None)
+            if prev and prev[0] == "env" and q[0] not in "'\"":
+                continue  # '$x' + b'q' would read as $xb
+            if prev and prev[0] == "quoted" and prev[1][-2:] in ("''", '""') and len(prev[1].lstrip("rRbBuU")) == 2:
+                continue  # '' + 'x' would open a triple quote
+            pieces.append(("quoted", q, None))
+        elif r < 0.82:
+            name = rnd.choice(ENV_NAMES)
+            if prev and prev[0] == "plain" and prev[1].endswith("@"):
+                continue
+            pieces.append(("env", f"${name}", name))
+        elif r < 0.88:
+            e = rnd.choice(["x", "a + b", "f(1)", "[1, 2]", "'s'", "x for x in y", "a, b", "lambda: 1", "d['k']"])
+            pieces.append(("pyexpr", f"@({e})", e))
+        elif prev and prev[0] == "plain" and prev[1].endswith("@"):
+            continue  # '@' directly followed by '(' or '$' is outside the property's alphabet
+        elif r < 0.93 and d < 2:
+            inner = gen_cmd(rnd, d + 1, forms=[("@$(", ")", "subproc_captured_inject")])
+            pieces.append(("inject", inner.text, inner))
+        elif d < 2:
+            inner = gen_cmd(rnd, d + 1)
+            pieces.append(("nested", inner.text, inner))
+        elif not prev or prev[0] not in ("plain", "env"):
+            pieces.append(("plain", plain_piece(rnd), None))
+    if not pieces:
+        pieces.append(("plain", "ls", None))
+    return pieces
+
+
+def gen_cmd(rnd, d=0, forms=None, newline_ws=False) -> Cmd:
+    o, c, fn = rnd.choice(forms or SUBPROC_FORMS)
+    words = []
+    for _ in range(rnd.randint(1, 5)):
+        for _try in range(10):
+            w = gen_word(rnd, d)
+            plain_text = "".join(p[1] for p in w if p[0] == "plain")
+            # the reserved-word test looks at the text as the tokenizer will see it (pieces glued)
+            glued = "".join(p[1] if p[0] in ("plain",) else " " for p in w)
+            if word_ok(glued) and word_ok("".join(p[1] for p in w if p[0] in ("plain", "quoted"))) and plain_text != "":
+                break
+            if word_ok(glued) and all(p[0] != "plain" for p in w):
+                break
+        else:
+            w = [("plain", "ls", None)]
+        words.append(w)
+    seps = [" ", " ", "  ", "\t", "   ", " \t "] + (["\n", " \n  "] if newline_ws else [])
+    text = o + rnd.choice(["", "", " ", "  "])
+    for i, w in enumerate(words):
+        if i:
+            text += rnd.choice(seps)
+        text += "".join(p[1] for p in w)
+    text += rnd.choice(["", "", " ", "\t"]) + c
+    return Cmd((o, c, fn), words, text)
